@@ -2,3 +2,5 @@ pub mod clock;
 pub mod model;
 pub mod rng;
 pub mod report;
+pub mod classify;
+pub mod wrapper;
